@@ -199,8 +199,10 @@ class _parse_board:
     # each of the four tags maps to the value written first
     def ensures_first_written_values(result, ghost_Deal, ghost_Dealer, ghost_Vulnerable,
                                      ghost_Board):
-        return conj(result['Deal'] == ghost_Deal, result['Dealer'] == ghost_Dealer,
-                    result['Vulnerable'] == ghost_Vulnerable, result['Board'] == ghost_Board)
+        # (a tag that is not there at all makes the clause false, not an evaluation error)
+        return all(t in result for t in NEEDED) and conj(
+            result['Deal'] == ghost_Deal, result['Dealer'] == ghost_Dealer,
+            result['Vulnerable'] == ghost_Vulnerable, result['Board'] == ghost_Board)
 
 
 # ---- parse_board_settings: Deal / Dealer / Vulnerable / Board of every game, in order ------------
@@ -338,6 +340,20 @@ class _write_line:
                                      lambda self, old: _chunks_ok(wout(old.self), wout(self)))
 
 
+@contract('bridge_env.data_handler.pbn_handler.writer.PbnWriter.write_header', props=P18)
+class _write_header:
+    modifies = ['self.writer.out']
+    note = 'both header lines start with the escape character, so the reader skips them (parse_stream)'
+
+    # C18: the header of an export file is two escaped lines -- they belong to no game
+    def ensures_two_escaped_lines(self, old):
+        new = wout(self)
+        k = len(wout(old.self))
+        return conj(len(new) == k + 2, new[:k] == wout(old.self),
+                    new[k][0] == '%', new[k][-1] == '\n', len(new[k]) <= 255,
+                    new[k + 1] == '% EXPORT\n')
+
+
 @contract('bridge_env.data_handler.pbn_handler.writer.PbnWriter.write_tag_pair', props=P18)
 class _write_tag_pair:
     params = dict(tag=OneOf(list(PBN.MANDATORY_TAGS)), content=NameText)
@@ -402,7 +418,7 @@ class _:
     def ensures_two_games_with_their_values(a, b):
         lines = PBN.export_game_lines(a) + PBN.export_game_lines(b)
         games = run_real(PbnParser.parse_all, PbnParser(), lines)
-        return len(games) == 2 and conj(
+        return len(games) == 2 and all(t in g for t in PBN.MANDATORY_TAGS for g in games) and conj(
             forall(range(15), lambda i: games[0][PBN.MANDATORY_TAGS[i]] == a[i]),
             forall(range(15), lambda i: games[1][PBN.MANDATORY_TAGS[i]] == b[i]))
 
